@@ -53,6 +53,10 @@ func genBatch(g *genCtx) {
 			}
 		}
 	}
+	// long texts that are much longer in UTF-8 octets than in units on the wire (they still fit 255 parts)
+	emit(Case{"k": "build", "proto": "SMPP", "cands": []int{0, 8}, "origin": -1, "content": scalars(strings.Repeat("é", 20000)), "procs": 4, "ref": 1})
+	emit(Case{"k": "build", "proto": "CMPP", "cands": []int{15, 8}, "origin": -1, "content": scalars(strings.Repeat("啊", 14000)), "procs": 4, "ref": 2})
+	emit(Case{"k": "build", "proto": "SMPP", "cands": []int{1, 3}, "origin": -1, "content": scalars(strings.Repeat("啊", 14000)), "procs": 4, "ref": 3})
 	for _, proto := range []string{"CMPP", "SMPP"} {
 		valid := batchValid[proto]
 		// (i) the comparator: every permutation of every candidate subset x part counts 1..3
